@@ -440,7 +440,7 @@ struct Exec {
             if (!op.a[0] && op.a[1]) { write_mem(fv, native_memtype(t), op.a[2]); fvp = fv; }
             rc = lib([&] { return ncmpi_def_var_fill(me.ncid[op.file], op.var, (int)op.a[0], fvp); }); rc_check(op, opi, rc, exp_rc(op), op.rc_any); break;
         }
-        case OP_FILL_VAR_REC: rc = lib([&] { return ncmpi_fill_var_rec(me.ncid[op.file], op.var, op.a[0]); }); rc_check(op, opi, rc, exp_rc(op), op.rc_any); break;
+        case OP_FILL_VAR_REC: rc = lib([&] { return ncmpi_fill_var_rec(me.ncid[op.file], op.var, op.a[0] + ((r % 2) ? op.a[1] : 0)); }); rc_check(op, opi, rc, exp_rc(op), op.rc_any); break;
         case OP_PUT_ATT: {
             int mt = native_memtype(op.att.type); std::vector<uint8_t> buf(op.att.v.size() * 8 + 8);
             for (size_t k = 0; k < op.att.v.size(); k++) write_mem(buf.data() + k * mt_size(mt), mt, op.att.v[k]);
